@@ -97,7 +97,7 @@ func allProps() []Prop {
 	meBounds := map[string]string{
 		"endpoints":  "universe {A,B,C} + one unknown name; lists of 0..3 distinct names",
 		"durations":  "recovery timeout and switching delay symbolic in [0, 2^40) ns, including 0, r<d, r>d, r==d",
-		"timers":     "step harness: one live recovery timer per recovering endpoint; quick: 0..1 pending delayed switch; thorough additionally 0..2 pending delayed switches and 0..1 orphan (removed endpoint) timer; live timers fire in due order, equal due times in any order; variant firestopped: an already expired recovery timer whose Stop() came too late still runs its callback",
+		"timers":     "step harness: one live recovery timer per recovering endpoint; quick: 0..1 pending delayed switch, and (timer-firing step) 0..1 orphan timer, i.e. the live timer of an endpoint object that was removed from the list, possibly with an endpoint of the same name listed again; thorough additionally 0..2 pending delayed switches and the orphan timer in every step; live timers fire in due order, equal due times in any order; variant firestopped: an already expired recovery timer whose Stop() came too late still runs its callback",
 		"clock":      "strictly increasing per timeNow call; instants < 2^50",
 		"k-step":     "real constructor + 1 (quick) / 2 (thorough) fully symbolic operations, initial list a prefix of A,B,C (by symmetry of names)",
 		"loop unroll": "6",
@@ -127,11 +127,15 @@ func allProps() []Prop {
 	for _, dz := range []int{0, 1} {
 		meJobs = append(meJobs, Job{Dir: me, Harness: "multiendpoint", Entry: "VerifH_mestep", Flags: []string{"op=2", "rz=0", fmt.Sprintf("dz=%d", dz), "firestopped"}, TmoMs: 60000})
 	}
+	// quick tier too: the timer of a removed endpoint object fires while an endpoint of the same name may be listed again
+	for _, dz := range []int{0, 1} {
+		meJobs = append(meJobs, Job{Dir: me, Harness: "multiendpoint", Entry: "VerifH_mestep", Flags: []string{"op=2", "rz=0", fmt.Sprintf("dz=%d", dz), "lean", "orphan"}, TmoMs: 60000, Tier: "quick"})
+	}
 	for _, n0 := range []int{0, 1, 2, 3} {
 		meJobs = append(meJobs, Job{Dir: me, Harness: "multiendpoint", Entry: "VerifH_me", Flags: []string{fmt.Sprintf("n0=%d", n0), "steps=1"}, Tier: "quick"})
 		meJobs = append(meJobs, Job{Dir: me, Harness: "multiendpoint", Entry: "VerifH_me", Flags: []string{fmt.Sprintf("n0=%d", n0), "steps=2"}, Tier: "thorough", TmoMs: 120000})
 	}
-	ckBounds := map[string]string{"payload": "standard encoding of 0..4 (quick) / 0..16 (thorough) arbitrary bytes; all 2^32 checksum values; two Marshal calls in a row (independence of the outputs); one 5000-byte payload of concrete content (VerifH_ckbig); the package initialiser of the package under test is executed", "loop unroll": "20"}
+	ckBounds := map[string]string{"payload": "standard encoding of 0..8 (quick) / 0..16 (thorough) arbitrary bytes (so: encodings that themselves start with a complete checksum field); all 2^32 checksum values; two Marshal calls in a row and one Marshal call nested in another (independence of calls); one 5000-byte payload of concrete content (VerifH_ckbig); the package initialiser of the package under test is executed", "loop unroll": "20"}
 	ckJobs := []Job{{Dir: "e2e-checksum", Harness: "e2e-checksum", Entry: "VerifH_ck", Unroll: 24, Flags: []string{"runInit"}}, {Dir: "e2e-checksum", Harness: "e2e-checksum", Entry: "VerifH_ckbig", Unroll: 5100, Flags: []string{"runInit"}}}
 	keysBounds := map[string]string{
 		"type family": "vTop{Id string; Mid *vMid; Mids []*vMid; Leaf vLeaf}, vMid{Key string; In *vLeaf; Items []*vLeaf; Vals []vLeaf; Names []string; Nums []int64; Any interface{} (nil | string | *vLeaf | vLeaf); M map[string]string}, vLeaf{Name string; Num int64; Flag bool; hidden string}; every pointer possibly nil; slices of 0..2; plus nil / string / []string messages, the harness message type and generated pb.AffinityConfig / pb.MethodConfig",
@@ -174,6 +178,7 @@ func allProps() []Prop {
 		{Dir: pb, Harness: "prober", Entry: "VerifH_payload", Flags: []string{"size=0", "size2=3"}},
 		{Dir: pb, Harness: "prober", Entry: "VerifH_payload", Flags: []string{"size=3", "size2=0"}},
 		{Dir: "spanner_prober", Harness: "spanner_prober", Entry: "VerifH_flags", Logic: "QF_UFFPBV", NoReplay: true},
+		{Dir: "spanner_prober", Harness: "spanner_prober", Entry: "VerifH_flags", Logic: "QF_UFFPBV", NoReplay: true, Flags: []string{"ptTable"}},
 		{Dir: "spanner_prober", Harness: "spanner_prober", Entry: "P7_flags", NoReplay: true, ReplayEntry: "VerifH_flags"},
 	}
 	pbBounds := map[string]string{
@@ -211,7 +216,7 @@ func allProps() []Prop {
 		{ID: "C06", Jobs: allGb, Progress: true, Assume: commonAssume, Bounds: gbBounds},
 		{ID: "C07", Jobs: cat(initJ, usc, done, donep3, []Job{{Dir: gcp, Harness: gcp, Entry: "VerifH_window", TmoMs: 240000, Note: "independent mathematical form of the detection window"}}), Assume: commonAssume, Bounds: gbBounds},
 		{ID: "C08", Jobs: cat(usc, pick, pickRR, done), Assume: commonAssume, Bounds: gbBounds},
-		{ID: "C09", Jobs: cat(rr, rrwin, pickRR, usc), Assume: commonAssume, Bounds: gbBounds},
+		{ID: "C09", Jobs: cat(rr, rrwin, pickRR, usc), Lockset: true, Assume: commonAssume, Bounds: gbBounds},
 		{ID: "C20", Jobs: cat(initJ, uccs, usc, reserr, done, donep3, caseJobs("VerifH_pick", map[string][]int{"method": {0}, "stale": {0, 1}}, []string{"method", "stale"}), grow), Assume: commonAssume, Bounds: gbBounds},
 	}
 }
